@@ -101,30 +101,47 @@ fn run(args: &[String]) -> (i32, String, String) {
 pub fn unit_cli(o: &mut Out, tier: &str, r: &mut Rng) {
     let n = if tier == "thorough" { 400 } else { 40 };
     let dir = scratch();
-    for i in 0..n {
-        let c = gen_cli(r, if i % 4 == 0 { 400 } else { 40 });
-        let out = dir.join(format!("corr_{}.json", i));
-        let mut args = c.args();
-        args.push("-o".into());
-        args.push(out.to_string_lossy().into_owned());
-        let (code, _, err) = run(&args);
-        let res = if code != 0 {
-            if err.contains("panicked") { "PANIC".to_string() } else { format!("EXIT {}", code) }
-        } else {
-            match std::fs::read(&out) {
-                Ok(b) => format!("{} {:016x}", b.len(), fnv1a(&b)),
-                Err(_) => "NOFILE".into(),
+    let cases: Vec<Cli> = (0..n).map(|i| gen_cli(r, if i % 4 == 0 { 400 } else { 40 })).collect();
+    let workers = std::thread::available_parallelism().map(|x| x.get()).unwrap_or(4).min(16);
+    // batches of `workers` runs of the real binary at a time; results are written out after each
+    // batch so the harness watchdog (25 s of silence) still sees progress
+    let mut base = 0usize;
+    for batch in cases.chunks(workers) {
+        let results: Vec<std::sync::Mutex<String>> = batch.iter().map(|_| std::sync::Mutex::new(String::new())).collect();
+        std::thread::scope(|sc| {
+            for (j, c) in batch.iter().enumerate() {
+                let (results, dir) = (&results, &dir);
+                sc.spawn(move || {
+                    let out = dir.join(format!("corr_{}.json", base + j));
+                    let mut args = c.args();
+                    args.push("-o".into());
+                    args.push(out.to_string_lossy().into_owned());
+                    let (code, _, err) = run(&args);
+                    let res = if code != 0 {
+                        if err.contains("panicked") { "PANIC".to_string() } else { format!("EXIT {}", code) }
+                    } else {
+                        match std::fs::read(&out) {
+                            Ok(b) => format!("{} {:016x}", b.len(), fnv1a(&b)),
+                            Err(_) => "NOFILE".into(),
+                        }
+                    };
+                    std::fs::remove_file(&out).ok();
+                    *results[j].lock().unwrap() = res;
+                });
             }
-        };
-        std::fs::remove_file(&out).ok();
-        o.case(format!("cli {} {} {} {} {} {} {}", METHODS[c.method].1, hx(c.lat), hx(c.lon), hx(c.elev), hx(c.gmt), c.start, c.end), res);
+        });
+        for (j, c) in batch.iter().enumerate() {
+            let res = results[j].lock().unwrap().clone();
+            o.case(format!("cli {} {} {} {} {} {} {}", METHODS[c.method].1, hx(c.lat), hx(c.lon), hx(c.elev), hx(c.gmt), c.start, c.end), res);
+        }
+        base += batch.len();
     }
     std::fs::remove_dir_all(&dir).ok();
 }
 
-fn one(ctx: &mut Ctx, c: &Cli, dir: &std::path::Path, k: usize, reuse: Option<&Cli>) {
-    ctx.eval();
-    ctx.nontrivial(&format!("{}|{}|{}|{:.0}", c.method, c.end - c.start, c.start % 1000, c.lat));
+/// one case against the real binary; `Some((observed, required))` when a clause fails.  Pure with
+/// respect to the falsifier context, so cases can run on several threads.
+fn one_pure(c: &Cli, dir: &std::path::Path, k: usize, reuse: Option<&Cli>) -> Option<(String, String)> {
     let lib = c.library();
     let (o1, p1, o2) = (dir.join(format!("o1_{}.json", k)), dir.join(format!("p_{}.json", k)), dir.join(format!("o2_{}.json", k)));
     // the same output/parameter paths may already hold the (longer) files of an earlier run
@@ -138,20 +155,17 @@ fn one(ctx: &mut Ctx, c: &Cli, dir: &std::path::Path, k: usize, reuse: Option<&C
     a.extend(["-o".into(), o1.to_string_lossy().into_owned(), "-p".into(), p1.to_string_lossy().into_owned()]);
     let (code, _, err) = run(&a);
     if code != 0 {
-        ctx.fail(c.json(), format!("exit {} : {}", code, err.lines().last().unwrap_or("")), "exit 0".into());
-        return;
+        return Some((format!("exit {} : {}", code, err.lines().last().unwrap_or("")), "exit 0".into()));
     }
     let bytes1 = std::fs::read(&o1).unwrap_or_default();
     match serde_json::from_slice::<Ranged>(&bytes1) {
         Ok(dec) => {
             if dec != lib {
-                ctx.fail(c.json(), format!("-o file decodes to {} dates, differs from the library", dec.len()), "exactly the library's range result".into());
-                return;
+                return Some((format!("-o file decodes to {} dates, differs from the library", dec.len()), "exactly the library's range result".into()));
             }
         }
         Err(e) => {
-            ctx.fail(c.json(), format!("-o file does not decode: {}", e), "JSON of the library's range result".into());
-            return;
+            return Some((format!("-o file does not decode: {}", e), "JSON of the library's range result".into()));
         }
     }
     // run 2: -i with the saved parameter file must reproduce byte-identical output
@@ -159,15 +173,13 @@ fn one(ctx: &mut Ctx, c: &Cli, dir: &std::path::Path, k: usize, reuse: Option<&C
     let (code2, _, err2) = run(&a2);
     let bytes2 = std::fs::read(&o2).unwrap_or_default();
     if code2 != 0 || bytes2 != bytes1 {
-        ctx.fail(c.json(), format!("-i run: exit {} ({}), output {} bytes vs {}", code2, err2.lines().last().unwrap_or(""), bytes2.len(), bytes1.len()), "byte-identical output from the saved parameter file".into());
-        return;
+        return Some((format!("-i run: exit {} ({}), output {} bytes vs {}", code2, err2.lines().last().unwrap_or(""), bytes2.len(), bytes1.len()), "byte-identical output from the saved parameter file".into()));
     }
     // terminal listing: Hijri date header and the seven entries per date
     if c.end - c.start < 20 {
         let (code3, out, _) = run(&c.args());
         if code3 != 0 {
-            ctx.fail(c.json(), format!("terminal run exit {}", code3), "exit 0".into());
-            return;
+            return Some((format!("terminal run exit {}", code3), "exit 0".into()));
         }
         for (d, day) in &lib {
             // independent rendering of the Hijri header (own tabular calendar, own name tables)
@@ -176,8 +188,7 @@ fn one(ctx: &mut Ctx, c: &Cli, dir: &std::path::Path, k: usize, reuse: Option<&C
             let pos = match out.find(&header) {
                 Some(p) => p,
                 None => {
-                    ctx.fail(c.json(), format!("no header `{}` in the listing", header), "Hijri date and civil date per day".into());
-                    return;
+                    return Some((format!("no header `{}` in the listing", header), "Hijri date and civil date per day".into()));
                 }
             };
             let block: Vec<&str> = out[pos..].lines().skip(1).take(7).collect();
@@ -194,14 +205,27 @@ fn one(ctx: &mut Ctx, c: &Cli, dir: &std::path::Path, k: usize, reuse: Option<&C
                     Err(()) => format!("  {:?}: Invalid", p),
                 };
                 if block.get(i).copied() != Some(want.as_str()) {
-                    ctx.fail(c.json(), format!("line `{}`", block.get(i).copied().unwrap_or("<missing>")), format!("`{}`", want));
-                    return;
+                    return Some((format!("line `{}`", block.get(i).copied().unwrap_or("<missing>")), format!("`{}`", want)));
                 }
             }
         }
     }
     for f in [&o1, &p1, &o2] {
         std::fs::remove_file(f).ok();
+    }
+    None
+}
+
+fn one(ctx: &mut Ctx, c: &Cli, dir: &std::path::Path, k: usize, reuse: Option<&Cli>) {
+    let r = one_pure(c, dir, k, reuse);
+    record(ctx, c, r);
+}
+
+fn record(ctx: &mut Ctx, c: &Cli, r: Option<(String, String)>) {
+    ctx.eval();
+    ctx.nontrivial(&format!("{}|{}|{}|{:.0}", c.method, c.end - c.start, c.start % 1000, c.lat));
+    if let Some((obs, req)) = r {
+        ctx.fail(c.json(), obs, req);
     }
 }
 
@@ -237,18 +261,41 @@ pub fn c19(ctx: &mut Ctx, tier: &str, r: &mut Rng, js: &[Value], _reqs: &[String
         return;
     }
     let n = if tier == "thorough" { 300 } else { 36 };
+    // the cases are drawn from the one stream first, then run against the binary on several threads
+    // (each run of the tool can take seconds at polar latitudes), and recorded in their order
     let mut prev: Option<Cli> = None;
+    let mut cases: Vec<(Cli, Option<Cli>)> = vec![];
     for i in 0..n {
         let c = gen_cli(r, if i % 5 == 0 { 400 } else { 30 });
         if i == 0 {
             ctx.sample(c.json());
         }
         // every third case reuses the paths of a longer earlier run
-        let reuse = if i % 3 == 2 { prev.as_ref() } else { None };
-        one(ctx, &c, &dir, i, reuse);
+        let reuse = if i % 3 == 2 { prev.clone() } else { None };
         if c.end - c.start > 25 {
-            prev = Some(c);
+            prev = Some(c.clone());
         }
+        cases.push((c, reuse));
+    }
+    let results: Vec<std::sync::Mutex<Option<Option<(String, String)>>>> = cases.iter().map(|_| std::sync::Mutex::new(None)).collect();
+    let next = std::sync::atomic::AtomicUsize::new(0);
+    let workers = std::thread::available_parallelism().map(|x| x.get()).unwrap_or(4).min(16);
+    std::thread::scope(|sc| {
+        for _ in 0..workers {
+            sc.spawn(|| loop {
+                let i = next.fetch_add(1, std::sync::atomic::Ordering::SeqCst);
+                if i >= cases.len() {
+                    break;
+                }
+                let (c, reuse) = &cases[i];
+                let res = one_pure(c, &dir, i, reuse.as_ref());
+                *results[i].lock().unwrap() = Some(res);
+            });
+        }
+    });
+    for (i, (c, _)) in cases.iter().enumerate() {
+        let res = results[i].lock().unwrap().take().unwrap_or(None);
+        record(ctx, c, res);
     }
     // invalid values just outside each range, malformed values, reversed or malformed dates
     let ok = Cli { method: 5, lat: 39., lon: -77., elev: 0., gmt: -5., start: rd_of(2023, 2, 6), end: rd_of(2023, 2, 6) };
